@@ -148,6 +148,11 @@ def gen(seed: int, i: int, tier: str) -> dict:
             dest = rng.choice(nodes)
             ops.append(["send", [dest, rng.choice(children), 1, 0, rng.choice(types), G.payload(rng)],
                         rng.random() < 0.85])
+        elif r < 0.945:
+            # the application sends an internal command (reboot, heartbeat request, presentation request ...) of a
+            # type the older protocol knows, to a node that may be asleep
+            t = rng.choice([13] + ([18, 19, 24, 18] if both2x else [13]))
+            ops.append(["send", [rng.choice(nodes), 255, 3, 0, t, ""], rng.random() < 0.85])
         elif r < 0.96:
             ops.append(["reboot", rng.choice(nodes), True])
         else:
